@@ -2,6 +2,8 @@ package fscache
 
 import (
 	"os"
+	"path"
+	"strings"
 	"sync"
 
 	"github.com/goatcms/goatcore/filesystem"
@@ -81,10 +83,29 @@ func (c *Cache) Commit() (err error) {
 	return fshelper.Copy(c.bufferFS, c.remoteFS, nil)
 }
 
-// Copy duplicate a file or directory
+// removed return true if the node, or one of its parent directories, was removed
+// through the cache. Such a node is visible only if it was created again (in the buffer).
+func (c *Cache) removed(src string) bool {
+	c.changes.removeMU.RLock()
+	defer c.changes.removeMU.RUnlock()
+	c.changes.removeAllMU.RLock()
+	defer c.changes.removeAllMU.RUnlock()
+	for {
+		if c.changes.remove[src] || c.changes.removeAll[src] {
+			return true
+		}
+		parent := path.Dir(src)
+		if parent == src || parent == "." || parent == "/" {
+			return false
+		}
+		src = parent
+	}
+}
+
+// srcFS select the filespace that holds the current version of a node
 func (c *Cache) srcFS(p string) (srcFS filesystem.Filespace, src string) {
 	src = varutil.CleanPath(p)
-	if c.bufferFS.IsExist(src) {
+	if c.bufferFS.IsExist(src) || c.removed(src) {
 		srcFS = c.bufferFS
 	} else {
 		srcFS = c.remoteFS
@@ -94,11 +115,15 @@ func (c *Cache) srcFS(p string) (srcFS filesystem.Filespace, src string) {
 
 // Copy duplicate a file or directory
 func (c *Cache) Copy(src, dest string) error {
-	var srcFS filesystem.Filespace
-	srcFS, src = c.srcFS(src)
+	src = varutil.CleanPath(src)
 	dest = varutil.CleanPath(dest)
+	if dest == src || strings.HasPrefix(dest, src+"/") || src == "." {
+		return goaterr.Errorf("can not copy %s into itself (%s)", src, dest)
+	}
+	// the source is read through the cache itself: a directory can be partly
+	// buffered and partly remote
 	return (fshelper.Copier{
-		SrcFS:    srcFS,
+		SrcFS:    c,
 		SrcPath:  src,
 		DestFS:   c.bufferFS,
 		DestPath: dest,
@@ -107,10 +132,9 @@ func (c *Cache) Copy(src, dest string) error {
 
 // CopyDirectory duplicate a directory
 func (c *Cache) CopyDirectory(src, dest string) error {
-	var srcFS filesystem.Filespace
-	srcFS, src = c.srcFS(src)
+	src = varutil.CleanPath(src)
 	dest = varutil.CleanPath(dest)
-	if !srcFS.IsDir(src) {
+	if !c.IsDir(src) {
 		return goaterr.Errorf("Source node must be a directory")
 	}
 	return c.Copy(src, dest)
@@ -118,10 +142,9 @@ func (c *Cache) CopyDirectory(src, dest string) error {
 
 // CopyFile duplicate a file
 func (c *Cache) CopyFile(src, dest string) error {
-	var srcFS filesystem.Filespace
-	srcFS, src = c.srcFS(src)
+	src = varutil.CleanPath(src)
 	dest = varutil.CleanPath(dest)
-	if !srcFS.IsFile(src) {
+	if !c.IsFile(src) {
 		return goaterr.Errorf("Source node must be a file")
 	}
 	return c.Copy(src, dest)
@@ -134,20 +157,27 @@ func (c *Cache) ReadDir(src string) (result []os.FileInfo, err error) {
 		remoteErr, bufferErr   error
 	)
 	src = varutil.CleanPath(src)
-	remoteDirs, remoteErr = c.remoteFS.ReadDir(src)
+	if c.removed(src) {
+		remoteErr = goaterr.Errorf("%s was removed", src)
+	} else {
+		remoteDirs, remoteErr = c.remoteFS.ReadDir(src)
+	}
 	bufferDirs, bufferErr = c.bufferFS.ReadDir(src)
 	if remoteErr != nil && bufferErr != nil {
 		return nil, goaterr.ToError(goaterr.AppendError(nil, remoteErr, bufferErr))
 	}
-	result = remoteDirs
+	result = bufferDirs
 ReadDirLoop:
-	for _, bnode := range bufferDirs {
-		for _, cnode := range remoteDirs {
-			if bnode.Name() == cnode.Name() {
+	for _, rnode := range remoteDirs {
+		for _, bnode := range bufferDirs {
+			if bnode.Name() == rnode.Name() {
 				continue ReadDirLoop
 			}
 		}
-		result = append(result, bnode)
+		if c.removed(path.Join(src, rnode.Name())) {
+			continue
+		}
+		result = append(result, rnode)
 	}
 	return result, nil
 }
@@ -155,19 +185,19 @@ ReadDirLoop:
 // IsExist return true if node exist
 func (c *Cache) IsExist(src string) bool {
 	src = varutil.CleanPath(src)
-	return c.bufferFS.IsExist(src) || c.remoteFS.IsExist(src)
+	return c.bufferFS.IsExist(src) || (!c.removed(src) && c.remoteFS.IsExist(src))
 }
 
 // IsFile return true if node exist and is a file
 func (c *Cache) IsFile(src string) bool {
 	src = varutil.CleanPath(src)
-	return c.bufferFS.IsFile(src) || c.remoteFS.IsFile(src)
+	return c.bufferFS.IsFile(src) || (!c.removed(src) && c.remoteFS.IsFile(src))
 }
 
 // IsDir return true if node exist and is a directory
 func (c *Cache) IsDir(src string) bool {
 	src = varutil.CleanPath(src)
-	return c.bufferFS.IsDir(src) || c.remoteFS.IsDir(src)
+	return c.bufferFS.IsDir(src) || (!c.removed(src) && c.remoteFS.IsDir(src))
 }
 
 // MkdirAll create directory recursively
